@@ -1062,6 +1062,11 @@ def _reentrancy_cases():
             host["c"] = 0
             host["preempt"] = pts
             _REENTRY.append(host)
+            if rep < 2:
+                # same sweep, other history: call, change an own argument in place, call again
+                again = copy.deepcopy({k: v for k, v in host.items() if k != "preempt"})
+                again.update(again=True, nested_fresh=True)
+                _REENTRY.append(again)
     return _REENTRY
 
 
@@ -1136,7 +1141,14 @@ def generate(rng, tier, i):
         op = None
         if r < 0.30 or not handles and r < 0.45:
             op = _gen_call(rng, pool_kinds)
+            if rng.random() < 0.15 and not any("ref" in a for a in op["args"].values()):
+                # call, change an own argument in place, call again with the same objects
+                # (unpooled arguments: the change is the caller's, not the library's)
+                op["again"] = True
+                op["nested_fresh"] = True
             for a in op["args"].values():
+                if op.get("again"):
+                    break
                 if "kind" in a:
                     pool_kinds.append(a["kind"])
                 elif "data" in a:
@@ -1224,8 +1236,8 @@ def _resolve_recipe(scn_ops, ref_index):
     """Recipe of pool object #ref_index (pool order = order of creation over the ops)."""
     j = 0
     for op in scn_ops:
-        if op["k"] != "call":
-            continue
+        if op["k"] != "call" or op.get("nested_fresh"):
+            continue  # unpooled arguments (the op brings its own) do not occupy pool slots
         for a in op["args"].values():
             if "kind" in a or "data" in a:
                 if j == ref_index:
@@ -1253,6 +1265,33 @@ def _materialise(world, scn_ops, spec, fresh):
 VEC_ORTHO = True
 
 
+def _again_after_inplace(fn, kwargs, first):
+    """History inside one op: the call has been made; now the caller changes one of ITS OWN
+    argument variables in place and makes the same call with the very same objects.  The answer
+    must be the one for the values the objects hold now (= the call on fresh copies of them);
+    anything keyed on the identity of an argument would return the first answer again."""
+    import scipp as sc
+
+    target = None
+    for name, v in kwargs.items():
+        if isinstance(v, sc.Variable) and v.bins is None and v.dtype in ("float64", "float32"):
+            target = name
+            break
+    if target is None:
+        return canon.canon(first)
+    _, exc = core.capture(lambda: kwargs[target].__imul__(1.25))
+    if exc is not None:
+        return canon.canon(first)
+    second, e2 = core.capture(fn, **kwargs)
+    copies = {k: (v.copy() if hasattr(v, "copy") else v) for k, v in kwargs.items()}
+    third, e3 = core.capture(fn, **copies)
+    a = ["exc", e2.name] if e2 else canon.canon(second)
+    b = ["exc", e3.name] if e3 else canon.canon(third)
+    if a != b:
+        return ["stale_after_inplace", target, core.jdump(a)[:160], core.jdump(b)[:160]]
+    return ["again", canon.canon(first), a]
+
+
 def _exec_op(world, scn_ops, op, fresh=False):
     """Execute one op in ``world``.  Returns canonical result (or ['exc', name])."""
     k = op["k"]
@@ -1265,6 +1304,8 @@ def _exec_op(world, scn_ops, op, fresh=False):
         if world.after_build is not None:
             world.after_build()  # snapshot newly built arguments BEFORE the library sees them
         res, exc = core.capture(fn, **kwargs)
+        if op.get("again") and exc is None:
+            return _again_after_inplace(fn, kwargs, res)
         return ["exc", exc.name] if exc else canon.canon(res)
     if k == "obtain":
         res, exc = core.capture(FACTORIES[op["f"]])
@@ -1637,6 +1678,13 @@ class C09Engine(Engine):
                 res = _exec_op(world, ops, op)
             executed[t] = res
             order.append(t)
+            if isinstance(res, list) and res and res[0] == "stale_after_inplace":
+                ctx.violate("history_dependence",
+                            f"{op.get('f')}: after the caller changed its own argument {res[1]!r} in place, calling "
+                            f"again with the same objects gives {res[2]} but the same call on fresh copies of "
+                            f"the arguments gives {res[3]}", kind="stale_after_inplace", f=op.get("f"))
+            if isinstance(res, list) and res and res[0] == "again":
+                ctx.probe("caller_changed_own_argument_then_called_again")
             d = core.h64(core.jdump(res))
             ctx.log("op", op["k"], op.get("f", op.get("m", op.get("how"))), d)
             ctx.count("op_" + op["k"])
